@@ -98,4 +98,13 @@ ArriveF(mm, ss, cl, s, n) ==
                     ELSE [r.st EXCEPT !.live = @ \ r.st.ended]
   IN [st |-> s2, out |-> d, closed |-> (cl \/ term)]
 
+(* an early-terminating DOWNSTREAM stage placed after the operator (C14): "Take1" completes on the first value, "Throw1" is a callback
+   that fails on the first value (cause 11).  TailCut(out) is what the final observer sees of one batch of outputs and whether the
+   downstream stage terminated the stream in it. *)
+FirstN(out) == IF \E j \in 1..Len(out) : out[j].k = "N" THEN CHOOSE j \in 1..Len(out) : out[j].k = "N" /\ \A j2 \in 1..(j - 1) : out[j2].k # "N" ELSE 0
+TailCut(tail, out) ==
+  LET f == FirstN(out) IN
+  IF tail = "none" \/ f = 0 THEN [out |-> out, cut |-> FALSE]
+  ELSE IF tail = "Take1" THEN [out |-> SubSeq(out, 1, f) \o <<C(out[f].c)>>, cut |-> TRUE]
+  ELSE [out |-> SubSeq(out, 1, f - 1) \o <<E(11, out[f].c)>>, cut |-> TRUE]
 =============================================================================
